@@ -60,6 +60,11 @@ type msgWriter struct {
 	multiPartWriter [4]*multipart.Writer
 	partWriter      io.Writer
 	writer          io.Writer
+
+	// plainPartHeader is set for the S/MIME pre-render: the header of a part that is written at
+	// depth 0 there is written by multipart.Writer.CreatePart (sorted, unfolded) in the final
+	// render, and the signed bytes have to be identical to the emitted ones.
+	plainPartHeader bool
 }
 
 // Write implements the io.Writer interface for msgWriter.
@@ -371,15 +376,7 @@ func (mw *msgWriter) addFiles(files []*File, isAttachment bool) {
 			file.setHeader(HeaderContentID, mw.encoder.Encode(mw.charset.String(), contentID))
 		}
 		if mw.depth == 0 {
-			headers := make([]string, 0, len(file.Header))
-			for header := range file.Header {
-				headers = append(headers, header)
-			}
-			sort.Strings(headers)
-			for _, header := range headers {
-				mw.writeHeader(Header(header), file.Header[header]...)
-			}
-			mw.writeString(SingleNewLine)
+			mw.writePartHeader(file.Header)
 		}
 		if mw.depth > 0 {
 			mw.newPart(file.Header)
@@ -426,27 +423,49 @@ func (mw *msgWriter) writePart(part *Part, charset Charset) {
 	}
 	contentTransferEnc := part.encoding.String()
 
+	mimeHeader := textproto.MIMEHeader{}
+	if part.description != "" {
+		mimeHeader.Add(string(HeaderContentDescription),
+			mw.encoder.Encode(mw.charset.String(), part.description))
+	}
+	mimeHeader.Add(string(HeaderContentTransferEnc), contentTransferEnc)
+	mimeHeader.Add(string(HeaderContentType), contentType)
 	if mw.depth == 0 {
-		if part.description != "" {
-			mw.writeHeader(HeaderContentDescription, mw.encoder.Encode(mw.charset.String(), part.description))
-		}
-		mw.writeHeader(HeaderContentTransferEnc, contentTransferEnc)
-		mw.writeHeader(HeaderContentType, contentType)
-		mw.writeString(SingleNewLine)
+		mw.writePartHeader(mimeHeader)
 	}
 	if mw.depth > 0 {
-		mimeHeader := textproto.MIMEHeader{}
-		if part.description != "" {
-			mimeHeader.Add(string(HeaderContentDescription),
-				mw.encoder.Encode(mw.charset.String(), part.description))
-		}
-		mimeHeader.Add(string(HeaderContentTransferEnc), contentTransferEnc)
-		mimeHeader.Add(string(HeaderContentType), contentType)
 		mw.newPart(mimeHeader)
 	}
 	if mw.err == nil {
 		mw.writeBody(part.writeFunc, part.encoding)
 	}
+}
+
+// writePartHeader writes the header section of a part or file that is the only entity of the message
+// (depth 0), in sorted order and followed by the empty line.
+//
+// Normally the fields are folded like every other top-level header. In the S/MIME pre-render they are
+// written exactly the way multipart.Writer.CreatePart writes them (one unfolded line per value), because
+// that is how the very same part is written into the multipart/signed container in the final render.
+//
+// Parameters:
+//   - header: A map containing the header fields and their corresponding values.
+func (mw *msgWriter) writePartHeader(header map[string][]string) {
+	keys := make([]string, 0, len(header))
+	for key := range header {
+		keys = append(keys, key)
+	}
+	sort.Strings(keys)
+	for _, key := range keys {
+		if mw.plainPartHeader {
+			for _, value := range header[key] {
+				mw.writeString(fmt.Sprintf("%s: %s%s", key, value, SingleNewLine))
+			}
+			continue
+		}
+		mw.writeHeader(Header(key), header[key]...)
+	}
+	mw.writeString(SingleNewLine)
 }
 
 // writeString writes a string into the msgWriter's io.Writer interface.
